@@ -14,7 +14,8 @@ RULE = ("class 'Ab' with a plain attribute 'Xy', an identifying attribute 'iD' a
         'spelling with keyword spellings. After the last call of every sequence: every spelling of every attribute '
         'reads the model value on both instances, serialize_instance shows it, where_eq / dict filter / order_by '
         'under every spelling select exactly the matching instances, every spelling of the class name finds the '
-        'same metaclass and pool. Exhaustive over all sequences up to the stated length (every prefix is a '
+        'same metaclass and pool; a further class is DEFINED during the sequence: before that every spelling of its name is unknown to find_metaclass / '
+        'find_class / select / new, afterwards every spelling (also one that was turned down before) reaches the one class and its pool. Exhaustive over all sequences up to the stated length (every prefix is a '
         'sequence), Hypothesis for sequences up to 30 over longer names and more values. non-trivial = one '
         'attribute written under >= 2 different spellings and read under a third; distinct = by sequence.')
 ASSUMPTIONS = [
@@ -39,8 +40,13 @@ def spellings(name):
     return out
 
 
+LATE = 'Zk'          # a class that is defined in the course of a sequence; before that every spelling is unknown
+
+
 class World(object):
     def __init__(self, names=None, via_load=False, types=None):
+        self.late = None
+        self.late_insts = []
         names = names or {'cls': 'Ab', 'plain': 'Xy', 'ident': 'iD', 'ref': 'Rf', 'tcls': 'Tq', 'tkey': 'K'}
         self.names = names
         self.types = types = types or {'plain': 'INTEGER', 'ident': 'INTEGER'}
@@ -145,8 +151,56 @@ def apply(w, op, case):
             mod[n[which]] = v
         w.insts.append(new)
         w.model.append(mod)
+    elif kind == 'late-define':
+        if w.late is None:
+            try:
+                w.late = w.m.define_class(LATE, [('V', 'INTEGER')])
+            except Exception as e:
+                fail('define-class-exception:' + exc_bucket(e), repr(e))
+    elif kind == 'late-new':
+        try:
+            x = w.m.new(op[1], **{op[2]: 7})
+        except xtuml.UnknownClassException as e:
+            if w.late is not None:
+                fail('class-spelling-unknown-after-definition', 'new(%r) raised %r although %s is defined' % (op[1], e, LATE))
+        except Exception as e:
+            fail('new-exception:' + exc_bucket(e), repr(e))
+        else:
+            if w.late is None:
+                fail('undefined-class-instantiated', 'new(%r) returned %r' % (op[1], x))
+            if xtuml.get_metaclass(x) is not w.late or x.V != 7:
+                fail('class-spelling-other-metaclass', 'new(%r, %s=7) gave %r' % (op[1], op[2], x))
+            w.late_insts.append(x)
     else:
         raise ValueError(op)
+
+
+def check_late(w, fail):
+    """the class defined during the sequence: unknown under every spelling before, one class under every spelling after"""
+    for sp in spellings(LATE):
+        outcome = []
+        for what, fn in (('find_metaclass', lambda: w.m.find_metaclass(sp)), ('find_class', lambda: w.m.find_class(sp)),
+                         ('select_many', lambda: list(w.m.select_many(sp))), ('select_any', lambda: w.m.select_any(sp))):
+            try:
+                outcome.append((what, 'v', fn()))
+            except xtuml.UnknownClassException as e:
+                outcome.append((what, 'unknown', e))
+            except Exception as e:
+                fail('class-spelling-exception:' + exc_bucket(e), '%s(%r): %r' % (what, sp, e))
+        for what, k, v in outcome:
+            if w.late is None:
+                if k != 'unknown':
+                    fail('undefined-class-found', '%s(%r) gave %r before %s was defined' % (what, sp, v, LATE))
+            elif k == 'unknown':
+                fail('class-spelling-unknown-after-definition', '%s(%r) raised %r although %s is defined' % (what, sp, v, LATE))
+        if w.late is not None:
+            got = dict((what, v) for what, k, v in outcome)
+            if got['find_metaclass'] is not w.late or got['find_class'] is not w.late.clazz:
+                fail('class-spelling-other-metaclass', 'find_metaclass(%r)' % sp)
+            if len(got['select_many']) != len(w.late_insts) or any(a is not b for a, b in zip(got['select_many'], w.late_insts)):
+                fail('class-spelling-other-pool', 'select_many(%r) gave %d instances' % (sp, len(got['select_many'])))
+            if got['select_any'] is not (w.late_insts[0] if w.late_insts else None):
+                fail('class-spelling-other-pool', 'select_any(%r)' % sp)
 
 
 def check(w, case, value_pool):
@@ -154,6 +208,7 @@ def check(w, case, value_pool):
         raise Violation(bucket, case, detail)
 
     n = w.names
+    check_late(w, fail)
     # class name spellings
     mc = w.m.find_metaclass(n['cls'])
     for sp in spellings(n['cls']):
@@ -330,6 +385,9 @@ def alphabet():
     ops.append(['unrelate'])
     ops.append(['new', 'aB', [['plain', 'xY', 2], ['ident', 'ID', 1]]])
     ops.append(['new', 'AB', [['plain', 'XY', 1]]])
+    ops.append(['late-define'])
+    ops.append(['late-new', 'zK', 'v'])
+    ops.append(['late-new', 'ZK', 'V'])
     return ops
 
 
@@ -350,7 +408,7 @@ def long_cases(draw):
         elif k == 6:
             ops.append(['writeref', draw(st.sampled_from(spellings(LONG['ref']))), draw(st.integers(0, 99))])
         elif k == 7:
-            ops.append([draw(st.sampled_from(['relate', 'unrelate']))])
+            ops.append(draw(st.sampled_from([['relate'], ['unrelate'], ['late-define'], ['late-new', 'zk', 'V'], ['late-new', 'Zk', 'v']])))
         else:
             kw = []
             for which in ('plain', 'ident'):
